@@ -156,7 +156,7 @@ def run(ctx):
         rep.evaluations += 1
         return
 
-    n = 260 if tier == "quick" else 6000
+    n = 150 if tier == "quick" else 6000
     cases = []
     for k in range(n):
         cases.append(env.case(want_valid=(k % 3 == 0)))
